@@ -141,6 +141,15 @@ def likelihood_chain(c, kind, m=2, n=2, noise='scalar'):
         if kind.endswith('linear'): model = cuqi.model.LinearModel(fwd, adj, range_geometry=m, domain_geometry=gd)
         else: model = cuqi.model.Model(lambda X: (Lm @ (X + X ** 3) @ Rm).ravel(), m, gd, gradient=lambda direction, X: (1 + 3 * X ** 2) * (Lm.T @ direction.reshape(2, 2) @ Rm.T))
         x = c.vec('x', n); y = c.vec('y', m)
+    elif kind.startswith('geometry_with_derivative'):
+        # the domain geometry supplies its own derivative (a user geometry: par2fun(p) = p**3 + p) AND an inverse map that is not the identity: the
+        # likelihood gradient is J_G(p)^T A^T dlogp/dmu for linear models in both forms and for the same operator as a generic model
+        from contracts.C12 import GradInvGeometry
+        gd = GradInvGeometry(n); A = c.mat('A', m, n)
+        form = kind.split(':')[1]
+        if form == 'matrix': model = cuqi.model.LinearModel(A, range_geometry=m, domain_geometry=gd)
+        elif form == 'funcs': model = cuqi.model.LinearModel(lambda v: A @ v, lambda w: A.T @ w, range_geometry=m, domain_geometry=gd)
+        else: model = cuqi.model.Model(lambda v: A @ v, m, gd, gradient=lambda direction, v: A.T @ direction)
     elif kind in ('step_domain:matrix', 'step_domain:jacobian'):
         # domain geometry with a non-identity parameter-to-function map and no derivative of its own (2 steps on 4 nodes):
         # the gradient must be refused or be the derivative w.r.t. the PARAMETERS
@@ -313,6 +322,9 @@ def jobs(tier):
     for kind in ('image_domain:F:linear', 'image_domain:F:nonlinear', 'image_domain:C:linear'):
         J.append(Job(f'Likelihood.gradient:chain_rule:{kind}', lambda c, k=kind: likelihood_chain(c, k), 'Pbox',
                      ['cuqi.model._model:Model.gradient', 'cuqi.likelihood._likelihood:Likelihood._gradient', 'cuqi.geometry._geometry:Image2D.fun2par'], rtol=1e-4, timeout=300))
+    for kind in ('geometry_with_derivative:matrix', 'geometry_with_derivative:funcs', 'geometry_with_derivative:generic'):
+        J.append(Job(f'Likelihood.gradient:chain_rule:{kind}', lambda c, k=kind: likelihood_chain(c, k), 'Pbox',
+                     ['cuqi.model._model:Model.gradient', 'cuqi.model._model:LinearModel.__init__', 'cuqi.likelihood._likelihood:Likelihood._gradient'], rtol=1e-4, timeout=300))
     for kind in ('step_domain:matrix', 'step_domain:jacobian'):
         J.append(Job(f'Likelihood.gradient:non_identity_domain_geometry:{kind}', lambda c, k=kind: likelihood_chain(c, k), 'Pbox',
                      ['cuqi.model._model:Model._check_gradient_can_be_computed', 'cuqi.model._model:Model.gradient', 'cuqi.likelihood._likelihood:Likelihood._gradient'], rtol=1e-4, timeout=300))
